@@ -1,6 +1,8 @@
 """C07: fault enumeration.  For applied transactions of TLC-generated histories every collaborator call
 (device Set, each cache Read/GetKeys/Modify, each schema GetSchema/ToPath) is made to fail once
-(error, or error + restart over the same cache), followed by a retry of the same request.
+(error, or error + restart over the same cache), followed by a retry of the same request; the same for the
+collaborator calls of the rollback when the last transaction is cancelled (a failed cancel keeps the transaction
+registered, the repeated cancel converges).
 The traces are validated against IntentsTrace.tla (clauses C07.*)."""
 import copy, json, os, shutil, time
 import vlib, eng_intents, prop_intents
@@ -78,6 +80,31 @@ def fault_variants(base, ncalls_by_step, fsteps):
     return out
 
 
+def cancel_base(base):
+    """the same history with its last transaction cancelled instead of confirmed"""
+    b = copy.deepcopy(base)
+    b["id"] = base["id"] + "-c"
+    last = b["steps"][-1]
+    assert last["op"] == "confirm"
+    b["steps"][-1] = dict(op="cancel", id=last["id"])
+    return b
+
+
+def cancel_fault_variants(cbase, ncalls):
+    """every collaborator call of the rollback of the last transaction fails once (and the device call), the cancel is repeated"""
+    out = []
+    last = cbase["steps"][-1]
+    for j in list(range(1, ncalls + 1)) + ["dev"]:
+        faulty = dict(last)
+        if j == "dev":
+            faulty["devfail"] = True
+        else:
+            faulty["failat"] = j
+        steps = copy.deepcopy(cbase["steps"][:-1]) + [faulty, dict(last), dict(op="cancel", id=last["id"])]
+        out.append(dict(id="%s-x%s" % (cbase["id"], j), gamma=cbase["gamma"], init=cbase["init"], steps=steps))
+    return out
+
+
 def check(prop, tier, seed, replay):
     t0 = time.time()
     vh = vlib.build_harness()
@@ -94,15 +121,20 @@ def check(prop, tier, seed, replay):
             if not bs:
                 raise Inconclusive("no base histories")
             t_base = os.path.join(wd, "base.ndjson")
-            vlib.run_harness_parallel(vh, "intents", bs, t_base, args=["-no-env-sync"])
+            cbs = [cancel_base(b) for b in bs]
+            vlib.run_harness_parallel(vh, "intents", bs + cbs, t_base, args=["-no-env-sync"])
             ev = vlib.read_ndjson(t_base)
-            ncalls = {}
+            ncalls, ccalls = {}, {}
             for e in ev:
                 if e["ev"] == "txset":
                     ncalls.setdefault(e["b"], {})[e["i"] - 1] = e["ncalls"]
+                if e["ev"] == "cancel":
+                    ccalls[e["b"]] = e["ncalls"]
             behs = []
             for b in bs:
                 behs += fault_variants(b, ncalls.get(b["id"], {}), PLAN[tier]["fsteps"])
+            for cb in cbs:
+                behs += cancel_fault_variants(cb, ccalls.get(cb["id"], 0))
             log("%d base histories, %d fault behaviours" % (len(bs), len(behs)))
         else:
             with open(replay) as fh:
@@ -115,6 +147,19 @@ def check(prop, tier, seed, replay):
     finally:
         shutil.rmtree(wd, ignore_errors=True)
     import collections
+    # the device after a failed and repeated cancel is the device after the fault-free cancel of the same history
+    # (the trace spec judges the store; "restored" on the device is C05's business, with its known findings)
+    if replay is None:
+        ref = {e["b"]: e["post"]["device"] for e in ev if e["ev"] == "cancel"}
+        last = {}
+        for k, e in enumerate(events):
+            if e["ev"] == "cancel" and "-c-x" in e["b"]:
+                last[e["b"]] = k
+        for b, k in sorted(last.items()):
+            base_id = b[:b.index("-c-x") + 2]
+            e = events[k]
+            if base_id in ref and e["ret"] == "ok" and e["post"]["device"] != ref[base_id]:
+                verdict["bad"].append(["C07", "CancelRetryDevice", k + 1])
     log("failed clauses by kind: %s" % dict(collections.Counter("%s.%s" % (b[0], b[1]) for b in verdict["bad"])))
     known = vlib.load_known()
     mine = [b for b in verdict["bad"] if b[0] == "C07"]
@@ -129,7 +174,7 @@ def check(prop, tier, seed, replay):
     # which call kinds were hit
     kinds = collections.Counter()
     for e in events:
-        if e["ev"] == "txset" and (e.get("failat") or e.get("devfail")):
+        if e["ev"] in ("txset", "cancel") and (e.get("failat") or e.get("devfail")):
             kinds["device" if e.get("devfail") else "collab"] += 1
     nt = verdict["nt"].get("C07", 0)
     cov = dict(evaluations=len(behs), distinct_nontrivial=nt,
